@@ -28,6 +28,10 @@ type HarnessSpec struct {
 	Desc        string
 	NoPanic     bool // uncaught Go panics are violations (default true unless ExpectPanicOK)
 	PanicOK     bool
+	NoNative    string   // non-empty: why a native replay is impossible (model-only report)
+	ReplayTags  string
+	ReplayEnv   []string
+	PanicIsViolation bool
 }
 
 type Options struct {
